@@ -4,6 +4,7 @@ package compose
 
 import (
 	"context"
+	"errors"
 	"fmt"
 	"sort"
 	"sync"
@@ -258,6 +259,7 @@ func applyHandle[S any](b handleBuilder[S], cs []Cond) {
 				es[i] = ErrByName[n]
 			}
 			b.HandleErrors(es...)
+			Scribble(es)
 		case "types":
 			if c.Type == "" {
 				b.HandleErrorTypes() // a registration call with an empty argument list
@@ -271,6 +273,16 @@ func applyHandle[S any](b handleBuilder[S], cs []Cond) {
 		}
 	}
 }
+
+// Scribble overwrites a slice that was handed to a variadic registration call (HandleErrors(es...)): the caller's slice is
+// the caller's, and what was registered is what it held at the time of the call.
+func Scribble(es []error) {
+	for i := range es {
+		es[i] = errScribble
+	}
+}
+
+var errScribble = errors.New("written into the caller's slice after the registration call")
 
 type Built struct {
 	Idx  int
@@ -365,6 +377,7 @@ func (w *World) build(i int, in Inst) *Built {
 					es[k] = ErrByName[n]
 				}
 				rb.AbortOnErrors(es...)
+				Scribble(es)
 			case "types":
 				rb.AbortOnErrorTypes(TypeTarget(c.Type))
 			case "result":
@@ -587,6 +600,7 @@ func (w *World) build(i int, in Inst) *Built {
 					es[k] = ErrByName[n]
 				}
 				hb.CancelOnErrors(es...)
+				Scribble(es)
 			case "types":
 				hb.CancelOnErrorTypes(TypeTarget(c.Type))
 			case "result":
